@@ -1,5 +1,5 @@
 use crate::*;
-use crate::serialization::utils::read_nint;
+use crate::serialization::utils::{read_nint, write_nint};
 
 impl Serialize for BigInt {
     fn serialize<'se, W: Write>(
@@ -16,14 +16,15 @@ impl Serialize for BigInt {
                     serializer.write_unsigned_integer(*u64_digits.first().unwrap())
                 }
                 // nint
-                num_bigint::Sign::Minus => serializer
-                    .write_negative_integer(-(*u64_digits.first().unwrap() as i128) as i64),
+                num_bigint::Sign::Minus => {
+                    write_nint(serializer, -(*u64_digits.first().unwrap() as i128))
+                }
             },
             _ => {
                 // Small edge case: nint's minimum is -18446744073709551616 but in this bigint lib
                 // that takes 2 u64 bytes so we put that as a special case here:
                 if sign == num_bigint::Sign::Minus && u64_digits == vec![0, 1] {
-                    serializer.write_negative_integer(-18446744073709551616i128 as i64)
+                    write_nint(serializer, -18446744073709551616i128)
                 } else {
                     let (sign, bytes) = self.0.to_bytes_be();
                     match sign {
